@@ -739,7 +739,13 @@ func init() {
 			}
 
 			if L.Parent != nil && L.stack.Sp() == 1 {
-				// +inline-call copyReturnValues L reg.Top() RA n B
+				// the bottom frame of a coroutine: its results already sit at RA.., they
+				// become the top of the stack in place (copying them above the top first
+				// would need room for them twice)
+				if n > nret {
+					n = nret
+				}
+				L.reg.SetTop(RA + n)
 				switchToParentThread(L, n, false, true)
 				return 1
 			}
